@@ -513,7 +513,17 @@ func (p *Parent) merge(d *delta) {
 		p.obs[k] += v
 	}
 	for _, s := range d.Samples {
-		if s != nil && len(p.samples) < 6 {
+		if s == nil || len(p.samples) >= 6 {
+			continue
+		}
+		sb, _ := json.Marshal(s)
+		dup := false
+		for _, o := range p.samples {
+			if ob, _ := json.Marshal(o); string(ob) == string(sb) {
+				dup = true
+			}
+		}
+		if !dup {
 			p.samples = append(p.samples, s)
 		}
 	}
